@@ -219,6 +219,14 @@ def annotate_fn(text, item: Fn, log, where):
                 raise AnchorLost(f"{where}: loop #{k} not found for ghost anchor")
             inserts.append((body_open + loops[k][1] + 1, "\n" + gt + "\n"))
             continue
+        me = re.match(r"@loop:(\d+):end$", anchor)
+        if me:
+            # just before the closing brace of the k-th loop's body (the normal end of an iteration)
+            k = int(me.group(1))
+            if k >= len(loops):
+                raise AnchorLost(f"{where}: loop #{k} not found for ghost anchor")
+            inserts.append((match_delim(m, body_open + loops[k][1]), "\n" + gt + "\n"))
+            continue
         ma = re.match(r"@after-loop:(.+)$", anchor)
         if ma:
             # after the closing brace of the first loop whose header matches the regex
